@@ -19,7 +19,7 @@ CONST = """CONSTANTS
   Vals <- %(vals)s
   ONames = {%(onames)s}
   OData <- %(odata)s
-  Objs = {%(objs)s}
+  Objs <- %(objs)s
   Rets <- %(rets)s
   MaxExp = %(maxexp)d
   Ns = {%(ns)s}
@@ -28,6 +28,7 @@ CONST = """CONSTANTS
   LateExpect = %(late)s
   Toggles = %(toggles)s
   Flags = %(flags)s
+  Phases = %(phases)s
   MaxInst = %(maxinst)d
   DKeys <- %(dkeys)s
   DVals <- %(dvals)s
@@ -51,6 +52,7 @@ TRACE_CONST = """CONSTANTS
   LateExpect = TRUE
   Toggles = TRUE
   Flags = TRUE
+  Phases = TRUE
   MaxInst = 0
   DKeys = {}
   DVals = {}
@@ -58,9 +60,10 @@ TRACE_CONST = """CONSTANTS
 
 
 def consts(**kw):
-    d = dict(scopes="ScopesG", fns='"f", "g"', pnames='"p"', vals="Vals2", onames="", odata="NoData", objs="", rets="Rets1",
-             maxexp=2, ns="0, 1, 2", maxcalls=3, getters="GetValue", late="FALSE", toggles="FALSE", flags="TRUE", maxinst=0, dkeys="NoKeys", dvals="NoData")
+    d = dict(scopes="ScopesG", fns='"f", "g"', pnames='"p"', vals="Vals2", onames="", odata="NoData", objs="NoObjs", rets="Rets1",
+             maxexp=2, ns="0, 1, 2", maxcalls=3, getters="GetValue", late="FALSE", toggles="FALSE", flags="TRUE", phases="FALSE", maxinst=0, dkeys="NoKeys", dvals="NoData")
     d.update(kw)
+    # objs: a set of object identities defined in MC_Mock (NoObjs, Objs1, Objs12, ObjsN1, ObjsN12: N = the null pointer among them)
     # cmpx: the comparison functions the enumerated domain installs (default: all of Mock!CmpModes)
     return CONST % d + ("  CmpExplored <- %s\n" % d["cmpx"] if d.get("cmpx") else "")
 
@@ -164,12 +167,48 @@ def assign_via(ex, rng, both_interfaces):
             contiguous = False
         elif op == "clear":
             last, contiguous, risky, begun = None, False, False, set()
+        elif op == "failcheck":
+            pass                                  # (what follows in the body is not executed)
         elif op in ("installcmp", "installcpy", "removeall", "setdata", "getdata"):
             contiguous = contiguous and l[1] == last      # they address a scope (C: the 'current mock support'), not the current call
         else:
             contiguous = False
         out.append(l)
     return out, family
+
+
+# ------------------------------------------------------------------ the test around a scenario: body, failing check, teardown
+def teardown_cuts(ex):
+    """the lines of a scenario in front of which the body of the test may end: the rest (up to `end') is then the test's teardown.
+    The teardown must stand on its own in both interfaces: the first sub-call or return-value read after the cut belongs to an
+    actual call begun after it"""
+    cuts = []
+    fresh = True                                 # scanning backwards: the lines from here on start no sub-call / read of an earlier call
+    for i in range(len(ex) - 1, -1, -1):
+        op = ex[i][0]
+        if op in ("param", "outparam", "object", "ret"):
+            fresh = False                        # needs its `begin' inside the teardown
+        elif op == "begin":
+            fresh = True
+        if fresh:
+            cuts.append(i)
+    return sorted(cuts)
+
+
+def with_phases(ex, rng, fail=None):
+    """the scenario as a test with a body and a teardown: the body ends in front of one of teardown_cuts(ex); with fail (default: two
+    times out of three) a check of the test itself fails somewhere in the body - the rest of the body is then not executed, the
+    teardown is.  None if the scenario cannot be split"""
+    ex = [list(l) for l in ex if l[0] not in ("teardown", "failcheck")]
+    cuts = teardown_cuts(ex)
+    if not cuts or ex[-1][0] != "end":
+        return None
+    c = rng.choice(cuts[-3:] if rng.random() < 0.6 else cuts)          # (teardowns are short more often than not)
+    fail = (rng.random() < 0.67) if fail is None else fail
+    body = ex[:c]
+    if fail:
+        body.insert(rng.randrange(len(body) // 2 if rng.random() < 0.5 else 0, len(body) + 1), ["failcheck"])
+    return body + [["teardown"]] + ex[c:]
 
 
 # ------------------------------------------------------------------ random scenarios
@@ -213,6 +252,14 @@ def user_type_names():
 
 
 CMP_MODES = ["whole", "first", "never", "always", "less"]       # Mock!CmpModes
+NULL_OBJ = -1                     # Mock!NullObj: the null pointer, an object identity like every other
+OBJ_IDS = [NULL_OBJ, 1, 2, 3]     # the object identities of the random scenarios
+
+
+def other_object(o):
+    """an object identity that differs from o"""
+    return OBJ_IDS[(OBJ_IDS.index(o) + 1) % len(OBJ_IDS)]
+
 ODD_CMP_MODES = ["never", "always", "less"]
 
 
@@ -449,7 +496,7 @@ def random_scenario(rng, typed=True, c_compatible=False, max_exp=12, max_calls=3
             continue                     # nothing to tell it apart from the existing ones
         for _try in range(20):
             atoms = {k: A.atom(sh["kinds"][k]) for k in sh["names"]}
-            obj = rng.randrange(1, 4) if sh["objs"] else 0
+            obj = rng.choice(OBJ_IDS) if sh["objs"] else 0
             if all(any(A.apart(atoms[k], o[2]["atoms"][k], lambda tn: R.cmp(s, tn)) for k in sh["names"]) or (obj and o[2]["obj"] and obj != o[2]["obj"]) for o in same):
                 break
         else:
@@ -518,7 +565,7 @@ def random_scenario(rng, typed=True, c_compatible=False, max_exp=12, max_calls=3
         for k, o in e["outs"].items():
             subs.append(["outparam", s, k, o["ty"]])
         if e["obj"] or (not c_compatible and rng.random() < 0.1):
-            subs.append(["object", s, e["obj"] or rng.randrange(1, 4)])
+            subs.append(["object", s, e["obj"] or rng.choice(OBJ_IDS)])
         if e["ign"] and rng.random() < 0.6:
             subs.append(["param", s, "extra", enc(mk_int("int", rng.randrange(3)))])
         rng.shuffle(subs)
@@ -532,7 +579,7 @@ def random_scenario(rng, typed=True, c_compatible=False, max_exp=12, max_calls=3
             elif kind < 0.75:
                 subs.insert(j, ["param", s, "zz", enc(mk_int("int", 1))])      # unknown parameter name
             elif kind < 0.85 and subs[j][0] == "object":
-                subs[j] = ["object", s, (subs[j][2] % 3) + 1]                  # another object
+                subs[j] = ["object", s, other_object(subs[j][2])]              # another object
             elif kind < 0.93 and subs[j][0] == "outparam":
                 subs[j] = ["outparam", s, subs[j][2], A.types[1] if typed else "raw"]   # another output type
             else:
